@@ -1,6 +1,7 @@
 package ssaexec
 
 import (
+	"unicode"
 	"fmt"
 	"go/types"
 	"math"
@@ -12,6 +13,29 @@ import (
 
 	"gosym/smt"
 )
+
+// unicodeLowerSummaryOK: the summary used for unicode.ToLower on symbolic runes,
+// checked against the toolchain's own tables for every rune.
+var unicodeLowerSummaryOK = func() bool {
+	for r := rune(0x80); r <= 0x10ffff; r++ {
+		l := unicode.ToLower(r)
+		switch r {
+		case 0x212a:
+			if l != 'k' {
+				return false
+			}
+		case 0x130:
+			if l != 'i' {
+				return false
+			}
+		default:
+			if l < 0x80 {
+				return false
+			}
+		}
+	}
+	return true
+}()
 
 type intrinsic func(st *State, fn *ssa.Function, args []Value) Value
 
@@ -123,6 +147,65 @@ func intrinsics() map[string]intrinsic {
 		m["sync/atomic.Add"+p.suffix] = atomicAdd(p.w)
 		m["sync/atomic.CompareAndSwap"+p.suffix] = atomicCAS(p.w)
 		m["sync/atomic.Swap"+p.suffix] = atomicSwap(p.w)
+	}
+	// ---- strings.ToLower / unicode.ToLower on symbolic text
+	// strings.ToLower: all-ASCII strings get the per-byte formula (one path);
+	// anything else runs the real body (range over a symbolic string).
+	m["strings.ToLower"] = func(st *State, fn *ssa.Function, args []Value) Value {
+		a := args[0].(Agg)
+		bs := st.seqBytes(tm(a[0]), tm(a[1]))
+		sym := false
+		for _, b := range bs {
+			if !b.IsConst() {
+				sym = true
+			}
+		}
+		if !sym {
+			return fallThrough
+		}
+		c := st.c
+		ascii := c.True
+		for _, b := range bs {
+			ascii = c.BAnd(ascii, c.Ult(b, c.Const(0x80, 8)))
+		}
+		if !st.branch(ascii, "tolower-ascii") {
+			return fallThrough
+		}
+		out := make([]*smt.Term, len(bs))
+		for i, b := range bs {
+			up := c.BAnd(c.Ule(c.Const('A', 8), b), c.Ule(b, c.Const('Z', 8)))
+			out[i] = c.Ite(up, c.Add(b, c.Const(32, 8)), b)
+		}
+		p := st.newBytesObject(out, len(out), "tolower")
+		return Agg{p, c.Const(uint64(len(out)), 64)}
+	}
+	// unicode.ToLower(r) for a symbolic rune: exact below 0x80; above, a
+	// summary checked natively over every rune when the engine starts
+	// (unicodeLowerSummaryOK): U+212A -> 'k', U+0130 -> 'i', every other rune
+	// >= 0x80 maps to some rune >= 0x80 (left unconstrained: over-approximation).
+	m["unicode.ToLower"] = func(st *State, fn *ssa.Function, args []Value) Value {
+		r := tm(args[0])
+		if r.IsConst() {
+			return fallThrough
+		}
+		if !unicodeLowerSummaryOK {
+			st.end("UNSUPPORTED", "unicode.ToLower summary does not hold for this toolchain")
+		}
+		c := st.c
+		k := func(v uint64) *smt.Term { return c.Const(v, 32) }
+		if st.branch(c.Ult(r, k(0x80)), "tolower-rune-ascii") {
+			up := c.BAnd(c.Ule(k('A'), r), c.Ule(r, k('Z')))
+			return c.Ite(up, c.Add(r, k(32)), r)
+		}
+		if st.branch(c.Eq(r, k(0x212a)), "tolower-kelvin") {
+			return k('k')
+		}
+		if st.branch(c.Eq(r, k(0x130)), "tolower-dotted-i") {
+			return k('i')
+		}
+		v := c.Var(st.freshName("tolower!rune"), 32)
+		st.assertAtLevel(c.BAnd(c.Ule(k(0x80), v), c.Ule(v, k(0x10ffff))))
+		return v
 	}
 	// ---- internal/bytealg (assembly in the real runtime)
 	indexByte := func(st *State, fn *ssa.Function, args []Value) Value {
